@@ -301,6 +301,14 @@ class DirectInterp(HopInterp):
 def hdiag_cases(src):
     fi = src.func(GS, "get_ham_iterative")
     ps = fi.params()
+    hop_ps = src.func(HOP, "hop_expr").params()
+    if len(hop_ps) < 5:
+        raise AnalysisError(f"hop_expr: signature changed: {hop_ps}")
+    shape_tok = _ShapeTok()
+    hop_args = src.func(HOP, "hop_expr").node.args
+    npos = len(hop_args.posonlyargs) + len(hop_args.args)
+    dflt = {i: d for i, d in zip(range(npos - len(hop_args.defaults), npos), hop_args.defaults)}
+    two_default = ast.literal_eval(dflt[4]) if 4 in dflt and isinstance(dflt[4], ast.Constant) else _MISSING
     out = []
     for nsite, two in ((1, False), (2, False), (1, True), (2, True)):
         tn = TN()
@@ -308,8 +316,9 @@ def hdiag_cases(src):
         ops = [tn.leaf(f"O{i}", 4) for i in range(nsite)]
         env = {ps[2]: tn.leaf("L", lr), ps[3]: tn.leaf("R", lr), ps[4]: OpList(tn, ops, two), ps[5]: (0.5 if two else None),
                "method": "1site" if nsite == 1 else "2site", f"{ps[0]}.optimize_config.method": "1site" if nsite == 1 else "2site",
-               f"{ps[0]}.optimize_config.inverse": 1.0, "OE_BACKEND": "numpy"}
+               f"{ps[0]}.optimize_config.inverse": 1.0, "OE_BACKEND": "numpy", f"{ps[1]}.shape": shape_tok}
         it = DiagInterp(tn, env)
+        it.hop_params, it.two_default = hop_ps, two_default
         key = f"get_ham_iterative.hdiag[{nsite}site,omega={'set' if two else 'None'}]"
         try:
             it.run(fi.node.body)
@@ -317,18 +326,56 @@ def hdiag_cases(src):
             if not isinstance(hd, T):
                 raise AnalysisError(f"{fi.where}[{key}]: hdiag contraction not found")
             out.append(Case(key, fi.where, it.calls[-1][2], tn.signature(hd), tna.canon_heff(nsite, False, two, "diag"), calls=it.calls))
-            out.append(Case(key + " hop_expr args", fi.where, it.expr_line, ("args", it.expr_args == [ps[2], ps[3], ps[4], "cshape", "omega is not None"]), ("args", True),
-                            error=None if it.expr_args == [ps[2], ps[3], ps[4], "cshape", "omega is not None"] else
-                            f"hop_expr is called with {it.expr_args}: left env, right env, operators, shape, two-layer flag expected"))
+            want_roles = {"left environment": env[ps[2]], "right environment": env[ps[3]], "operators": env[ps[4]], "shape of the trial tensor": shape_tok, "two-layer flag": two}
+            got = it.expr_roles or {}
+            bad = [r for r, w in want_roles.items() if not (got.get(r, _MISSING) is w or (isinstance(w, bool) and isinstance(got.get(r, _MISSING), bool) and got[r] == w))]
+            out.append(Case(key + " hop_expr args", fi.where, it.expr_line, ("args", not bad), ("args", True),
+                            error=None if not bad else
+                            f"hop_expr is called with {it.expr_args}: left env, right env, operators, shape of the local tensor, two-layer flag expected; wrong: {bad}"))
         except Malformed as m:
             out.append(Case(key, fi.where, fi.node.lineno, error=f"malformed contraction: {m}"))
     return out
 
 
+_MISSING = object()
+
+
+class _ShapeTok:
+    """the shape of the sector mask = the shape of the local tensor"""
+    def __repr__(self):
+        return "qn_mask.shape"
+
+
 class DiagInterp(HopInterp):
     hdiag = None
     expr_args = None
+    expr_roles = None
     expr_line = None
+    hop_params = ()
+    two_default = _MISSING
+    ROLES = ("left environment", "right environment", "operators", "shape of the trial tensor", "two-layer flag")
+
+    def _bind_hop(self, call):
+        """arguments of the hop_expr call, evaluated in the configuration, by the role their parameter has in hop_expr's own signature (positional or keyword)"""
+        byname = {}
+        for i, a in enumerate(call.args):
+            if isinstance(a, ast.Starred) or i >= len(self.hop_params):
+                raise AnalysisError(f"hop_expr call `{unparse(call)[:80]}` cannot be bound to the signature {list(self.hop_params)}")
+            byname[self.hop_params[i]] = a
+        for k in call.keywords:
+            if k.arg is None:
+                raise AnalysisError(f"hop_expr call `{unparse(call)[:80]}` passes **kwargs")
+            byname[k.arg] = k.value
+        roles = {}
+        for role, pname in zip(self.ROLES, self.hop_params[:5]):
+            if pname not in byname:
+                roles[role] = self.two_default if role == "two-layer flag" else _MISSING
+                continue
+            try:
+                roles[role] = self.ev(byname[pname])
+            except Unknown:
+                roles[role] = _MISSING
+        return roles
 
     def stmt(self, s):
         if isinstance(s, ast.Assign) and isinstance(s.targets[0], ast.Name) and s.targets[0].id == "hdiag":
@@ -338,7 +385,8 @@ class DiagInterp(HopInterp):
                 self.hdiag = v
             return
         if isinstance(s, ast.Assign) and isinstance(s.value, ast.Call) and unparse(s.value.func) == "hop_expr":
-            self.expr_args = [unparse(a) for a in s.value.args]
+            self.expr_args = [unparse(a) for a in s.value.args] + [f"{k.arg}={unparse(k.value)}" for k in s.value.keywords]
+            self.expr_roles = self._bind_hop(s.value)
             self.expr_line = s.lineno
             return
         if isinstance(s, ast.Return):
